@@ -17,6 +17,8 @@ def DATE(year, month, day):
     day = utils.parse_number(day)
     if utils.any_is_error((year, month, day)):
         return error.VALUE
+    # computed parts (4040/2) are floats; datetime needs integers
+    year, month, day = int(year), int(month), int(day)
     if year < 1900:
         year += 1900
     return datetime.datetime(year, month, day)
@@ -24,12 +26,13 @@ def DATE(year, month, day):
 
 @dispatcher.register_for('TIME')
 def TIME(hour, minute, second):
-    year = utils.parse_number(hour)
+    hour = utils.parse_number(hour)
     minute = utils.parse_number(minute)
     second = utils.parse_number(second)
-    if utils.any_is_error((year, minute, second)):
+    if utils.any_is_error((hour, minute, second)):
         return error.VALUE
-    return datetime.datetime(1900, 1, 1, hour, minute, second)
+    # computed parts (24/2) are floats; datetime needs integers
+    return datetime.datetime(1900, 1, 1, int(hour), int(minute), int(second))
 
 
 @dispatcher.register_for('DATEVALUE')
